@@ -93,22 +93,31 @@ def expected_outputs(d):
     raise ValueError(d)
 
 
-def universe(pool):
-    out = []
+class Pool:
+    """a pool of submittable tasks: top-level descriptors, node lists, expected outputs, and the name of
+    the module whose `--run` entry point defines the tasks against the pydra under test"""
 
-    def walk(d):
-        if d not in out:
-            out.append(d)
-        for c in children(d):
-            walk(c)
+    def __init__(self, top, children, expected, module):
+        self.top, self.children, self.expected, self.module = top, children, expected, module
 
-    for d in pool:
-        walk(d)
-    return out
+    def universe(self):
+        out = []
+
+        def walk(d):
+            if d not in out:
+                out.append(d)
+            for c in self.children(d):
+                walk(c)
+
+        for d in self.top:
+            walk(d)
+        return out
+
+    def is_leaf(self, d):
+        return not self.children(d)
 
 
-def is_leaf(d):
-    return not children(d)
+POOL = Pool(TOP_POOL, children, expected_outputs, "harness.c11")
 
 
 # ------------------------------------------------------------------------------------------------
@@ -236,7 +245,12 @@ def _canon(v):
         return v
     if isinstance(v, (list, tuple)):
         return [_canon(x) for x in v]
-    return repr(v)
+    if isinstance(v, dict):
+        return {str(k): _canon(x) for k, x in sorted(v.items(), key=lambda kv: str(kv[0]))}
+    fsp = getattr(v, "fspaths", None)
+    if fsp is not None:      # a fileformats FileSet: temp-dir names are not compared
+        return "fileset:" + ",".join(sorted(os.path.basename(str(p_)) for p_ in fsp))
+    return type(v).__name__
 
 
 def _snapshot(locs):
@@ -325,11 +339,11 @@ def _run_history(h, build, hooks, logf, flagdir, base):
     return out
 
 
-def runner_main(inp, outp):
+def runner_main(inp, outp, runner_pool=None):
     with open(inp) as f:
         batch = json.load(f)
     logf, flagdir = [None], [None]
-    build, hooks = _runner_pool(logf, flagdir)
+    build, hooks = (runner_pool or _runner_pool)(logf, flagdir)
     results = []
     for h in batch:
         base = tempfile.mkdtemp(prefix="c11h-", dir=h.get("tmp", "/tmp"))
@@ -398,18 +412,19 @@ def run_batches(histories, module="harness.c11", par=6, timeout=1500):
 
 
 # ---- generation ---------------------------------------------------------------------------------
-def gen_history(rng, pool=TOP_POOL, nlocs=3, flaky_p=0.35, kinds=("empty", "jobonly", "zero")):
-    univ = universe(pool)
-    leaves = [d for d in univ if is_leaf(d)]
+def gen_history(rng, pool=POOL, nlocs=3, flaky_p=0.35, kinds=("empty", "jobonly", "zero"), nflaky=(0, 1, 1, 2),
+                p_plant=0.18, p_rerun=0.3):
+    univ = pool.universe()
+    leaves = [d for d in univ if pool.is_leaf(d)]
     n = rng.choice([3, 4, 5, 6, 7, 8, 8])
     # a history concentrates on few tasks so that identities recur
-    focus = rng.sample(pool, rng.choice([1, 2, 2, 3]))
-    flaky = rng.sample(leaves, rng.choice([0, 1, 1, 2]))
+    focus = rng.sample(pool.top, rng.choice([1, 2, 2, 3]))
+    flaky = rng.sample(leaves, rng.choice(list(nflaky)))
     main_root = rng.randrange(nlocs)
     steps = []
     for _ in range(n):
         r = rng.random()
-        if r < 0.18:
+        if r < p_plant:
             steps.append({"op": "plant", "loc": rng.randrange(nlocs), "desc": rng.choice(univ if rng.random() < 0.5 else focus),
                           "kind": rng.choice(kinds)})
             continue
@@ -417,7 +432,7 @@ def gen_history(rng, pool=TOP_POOL, nlocs=3, flaky_p=0.35, kinds=("empty", "jobo
         others = [i for i in range(nlocs) if i != root]
         rng.shuffle(others)
         ro = others[: rng.choice([0, 1, 1, 2, 2])]
-        rerun = rng.random() < 0.3
+        rerun = rng.random() < p_rerun
         prop = rng.random() < 0.6
         how = "call" if (prop and rng.random() < 0.4) else rng.choice(["submit", "submit", "noraise"])
         fail = [d for d in flaky if rng.random() < flaky_p]
@@ -438,11 +453,11 @@ class Interner:
         return self.tab[k]
 
 
-def task_term(d, idx):
-    ch = children(d)
+def task_term(d, idx, pool=POOL):
+    ch = pool.children(d)
     if not ch:
         return "(Leaf %d)" % idx(d)
-    return "(Wf %d %s)" % (idx(d), coqio.lst([task_term(c, idx) for c in ch]))
+    return "(Wf %d %s)" % (idx(d), coqio.lst([task_term(c, idx, pool) for c in ch]))
 
 
 def dir_term(st, intern):
@@ -557,7 +572,7 @@ Definition not_leftover_shadow (c : case_t) : bool :=
 """
 
 
-def build_cases(histories, observations):
+def build_cases(histories, observations, pool=POOL):
     """-> (gallina cases, meta per case, problems found while translating (tie failures))"""
     cases, meta, problems = [], [], []
     for hi, (h, ob) in enumerate(zip(histories, observations)):
@@ -573,7 +588,7 @@ def build_cases(histories, observations):
         cs2id = {cs: i for i, cs in enumerate(css)}
         idx = lambda d: keys.index(json.dumps(d))  # noqa: E731
         intern = Interner()
-        vals = [(i, intern(expected_outputs(d))) for i, d in enumerate(univ)]
+        vals = [(i, intern(pool.expected(d))) for i, d in enumerate(univ)]
         u = "(%s, %s)" % (coqio.lst([str(i) for i in range(h["nlocs"])]), coqio.lst([str(i) for i in range(len(univ))]))
         before = ob["initial"]
         for k, (step, so) in enumerate(zip(h["steps"], ob["steps"])):
@@ -596,7 +611,7 @@ def build_cases(histories, observations):
                 evs, rep, raw_same = "[]", "Err", True
             else:
                 st = ("Submit {| s_task := %s; s_cfg := {| root := %d; ro := %s; prop := %s |}; s_rerun := %s |}" % (
-                    task_term(step["desc"], idx), step["root"], coqio.lst([str(i) for i in step["ro"]]),
+                    task_term(step["desc"], idx, pool), step["root"], coqio.lst([str(i) for i in step["ro"]]),
                     coqio.boolean(step["prop"] if step["how"] != "call" else True), coqio.boolean(step["rerun"])))
                 rep = res_term(so["reported"], intern)
                 # the value a hit hands over is not visible in the hook log: take the reported one for the
@@ -627,7 +642,7 @@ def build_cases(histories, observations):
                                for l in range(h["nlocs"]) if l != step["root"])
                 info["raw_same"] = raw_same
                 # the side-file counter of body executions must agree with the executions the hooks reported
-                leaf_runs = [univ[e[1]] for e in events if e[0] == "run" and 0 <= e[1] < len(univ) and is_leaf(univ[e[1]])]
+                leaf_runs = [univ[e[1]] for e in events if e[0] == "run" and 0 <= e[1] < len(univ) and pool.is_leaf(univ[e[1]])]
                 if sorted(map(json.dumps, leaf_runs)) != sorted(map(json.dumps, bodies)):
                     problems.append((info, {"bodies": bodies, "hook_runs": leaf_runs},
                                      "body execution counter disagrees with the executions reported by the hooks"))
@@ -649,8 +664,8 @@ def classify_reuse_failure(i, res):
     return None
 
 
-def check(ctx, histories, observations, prop):
-    cases, meta, problems = build_cases(histories, observations)
+def check(ctx, histories, observations, prop, pool=POOL):
+    cases, meta, problems = build_cases(histories, observations, pool)
     res = coqio.run_cases(ctx.scratch, prop.lower(), IMPORTS, "case_t", cases,
                           {"tie": "tie_ok", "spec": "spec_ok", "reuse": "reuse_ok",
                            "cls_errored": "not_errored_shadow", "cls_leftover": "not_leftover_shadow"},
@@ -662,22 +677,23 @@ def describe(m):
     return {"steps": m["steps_so_far"], "step_index": m["step"]}
 
 
-def run(ctx, prop="C11", pool=TOP_POOL, gen=gen_history, module="harness.c11"):
+def run(ctx, prop="C11", pool=POOL, gen=gen_history, rule=None, budget=(40, 600)):
     rng = ctx.rng
-    n = ctx.budget(60, 700)
+    os.makedirs(ctx.scratch.dir, exist_ok=True)   # the runner's widened context shares (and removes) this directory
+    n = ctx.budget(*budget)
     histories = []
     for c in ctx.corpus():
         if "steps" in c:
-            histories.append({"universe": universe(pool), "nlocs": c.get("nlocs", 3), "steps": c["steps"]})
+            histories.append({"universe": pool.universe(), "nlocs": c.get("nlocs", 3), "steps": c["steps"]})
     while len(histories) < n:
-        histories.append(gen(rng))
+        histories.append(gen(rng, pool))
     import time
     t0 = time.time()
-    observations = run_batches(histories, module=module)
+    observations = run_batches(histories, module=pool.module)
     t1 = time.time()
-    cases, meta, problems, res = check(ctx, histories, observations, prop)
+    cases, meta, problems, res = check(ctx, histories, observations, prop, pool)
     t2 = time.time()
-    out = Outcome(rule=RULE)
+    out = Outcome(rule=rule or RULE)
     out.evaluations = len(cases)
     out.traces_validated = len(histories)
     seen = set()
@@ -694,7 +710,7 @@ def run(ctx, prop="C11", pool=TOP_POOL, gen=gen_history, module="harness.c11"):
         dist["no_propagate"] += not op["prop"]
         dist["with_readonly"] += bool(op["ro"])
         dist["failing_body_planned"] += bool(op["fail"])
-        dist["workflow_submissions"] += not is_leaf(op["desc"])
+        dist["workflow_submissions"] += not pool.is_leaf(op["desc"])
         dist["executions"] += sum(1 for e in m.get("events", []) if e[0] == "run")
         dist["hits_top"] += bool(m.get("events")) and m["events"][-1][0] == "hit" and len(m["events"]) == 1
         dist["errors_reported"] += m["reported"][0] == "err"
@@ -719,13 +735,13 @@ def run(ctx, prop="C11", pool=TOP_POOL, gen=gen_history, module="harness.c11"):
                                                                  "raw_unchanged_outside_root": m.get("raw_same")},
                                     expected=explain(ctx, cases[i], "spec"), kind="spec",
                                     note="step violates the reference semantics of %s (Spec.CacheSeq.step_spec_core_b)" % prop))
-    for i in res["reuse"][:30]:
+    for i in (res["reuse"][:30] if prop == "C11" else []):
         m = meta[i]
         fid = classify_reuse_failure(i, res)
         out.failures.append(Failure(case=describe(m), observed={"events": m.get("events"), "reported": m["reported"],
                                                                  "store_before": m["pre"]},
                                     expected="a complete successful result is listed: no execution, that result handed back",
-                                    kind="spec", finding=fid if prop == "C11" else (fid or "reuse"),
+                                    kind="spec", finding=fid,
                                     note="a listed complete result is not reused" + (" (%s)" % fid if fid else "")))
     for i in res["tie"][:10]:
         m = meta[i]
@@ -761,12 +777,11 @@ def explain(ctx, case, kind):
         return "could not evaluate: %r" % e
 
 
-def replay(ctx, payload):
+def replay(ctx, payload, pool=POOL, prop="C11"):
     c = payload["case"]
-    pool = TOP_POOL
-    h = {"universe": universe(pool), "nlocs": 3, "steps": c["steps"]}
-    obs = run_batches([h])
-    cases, meta, problems, res = check(ctx, [h], obs, "C11")
+    h = {"universe": pool.universe(), "nlocs": 3, "steps": c["steps"]}
+    obs = run_batches([h], module=pool.module)
+    cases, meta, problems, res = check(ctx, [h], obs, prop, pool)
     for m in meta:
         print("step %d: %s" % (m["step"], json.dumps(m["op"])))
         print("  implementation: events=%s reported=%s" % (m.get("events"), m["reported"]))
